@@ -217,7 +217,7 @@ func (r *Report) Finish(evidencePath string) int {
 	}
 	sort.Strings(keys)
 	cov := map[string]interface{}{
-		"obligation_keys": keys,
+		"obligation_keys":     keys,
 		"explanation":         r.Explanation,
 		"obligations":         len(r.Obs),
 		"discharged":          discharged,
